@@ -245,6 +245,17 @@ def run(tier, report):
                 report.violation("c12", vec, {"back": ["ok", vec["table"]]}, None, problem)
             else:
                 report.violations.append({"what": problem})
+    # cells of any length: csv's default field size limit (131072) is not a property of delimited data
+    for length in (131072, 131073, 1000000):
+        for fmt_args in ((",", '"', '"', False), (";", "'", "\\", True)):
+            data_format, _ = make_format(*fmt_args)
+            table = [["a", "x" * length], ["b", "c"]]
+            text, back = round_trip(data_format, table)
+            report.replayed += 1
+            if back != ["ok", table]:
+                report.violation("c12", {"long_cell": length, "cfg": list(fmt_args)}, None, None,
+                                 "item delimiter %r, quote %r, escape %r: a table with a cell of %d characters is read back as %s" % (
+                                     fmt_args[0], fmt_args[1], fmt_args[2], length, str(back[1])[:120]))
     if not report.violations:
         for vec in vectors:
             if vec["phase"] == "read" and vec["table"] and vec["table"][0] and vec["table"][0][0]:
